@@ -19,7 +19,6 @@ Oracle: fingerprints unchanged / equal to the twin; names of copies equal the or
 the _original_density chain ends in the original; parameter names equal the reference table
 (vlib/refs/c11_graph.py); a conditioned copy evaluates like its source at the fixed values.
 """
-import math
 import numpy as np
 from vlib import core
 from vlib.refs import c11_graph as G
@@ -923,6 +922,7 @@ class Runner:
         nv, nx = fp_stats(f)
         self.ctx.count("original_fingerprints_compared")
         self.ctx.count("fingerprint_fields_compared", len(f))
+        self.ctx.count("fingerprint_fields_of_originals", len(f))
         self.ctx.count("fingerprint_value_fields", nv)
         bad = fp_diff(e.fp_ref, f)
         if bad:
@@ -989,8 +989,7 @@ class Runner:
         names = list(e.obj.get_parameter_names())
         if not names:
             return self._cond_empty(e)
-        k = min(len(names), 1 + int(self.rs.geometric(0.55)) - 1 + 0)
-        k = max(1, k)
+        k = max(1, min(len(names), int(self.rs.geometric(0.55))))
         positional = self.rs.uniform() < 0.3
         if positional:
             sel = names[:k]
@@ -1226,8 +1225,8 @@ class Runner:
         if got != ("v", G.joint_parameter_names(st, ())):
             ctx.violation("parameter_names_wrong", {**self.cfg, "object": "JointDistribution"},
                           detail=f"joint parameter names {_show(got)}, reference {G.joint_parameter_names(st, ())}")
-        nv, nall = ctx.counters.get("fingerprint_value_fields", 0), ctx.counters.get("fingerprint_fields_compared", 0)
-        if self.nder > 0 and ctx.counters.get("original_fingerprints_compared", 0) > 0:
+        nv, nall = ctx.counters.get("fingerprint_value_fields", 0), ctx.counters.get("fingerprint_fields_of_originals", 0)
+        if self.nder > 0 and ctx.counters.get("original_fingerprints_compared", 0) > 0 and nv >= 0.6 * max(1, nall):
             ctx.nontrivial()
             for cls, op in sorted(self.touched):
                 ctx.nontrivial(f"{self.case['tpl']}/{cls}/{op}")
@@ -1373,6 +1372,7 @@ class _Fixture:
             nv, _ = fp_stats(f)
             ctx.count("original_fingerprints_compared")
             ctx.count("fingerprint_fields_compared", len(f))
+            ctx.count("fingerprint_fields_of_originals", len(f))
             ctx.count("fingerprint_value_fields", nv)
             bad = fp_diff(self.ref[eid], f)
             if bad:
@@ -1514,7 +1514,7 @@ def run_gibbs(case, ctx):
         return
     ctx.count("gibbs_runs")
     ctx.count("gibbs_sweeps_observed", sweeps + 4)
-    ok = F.check("after the first Gibbs run", op)
+    F.check("after the first Gibbs run", op)
     # a second sampler on the same posterior, after the first: must reproduce what a first run on an untouched twin gives
     chains2 = _run_gibbs_once(cuqi, case, W, post, iface, sweeps, 23, fallback)
     ctx.count("gibbs_sweeps_observed", sweeps + 4)
